@@ -433,14 +433,15 @@ fn oracle_macros(out: &mut Out, args: &Args) {
                 Some((h0, o0)) => {
                     out.count("comparisons:macro");
                     if o0 != o {
-                        let mut b0 = error_blocks(o0);
-                        let mut b1 = error_blocks(o);
+                        // same lines, different order?
+                        let mut b0: Vec<&str> = o0.strip_prefix("err|").unwrap_or(o0).lines().collect();
+                        let mut b1: Vec<&str> = o.strip_prefix("err|").unwrap_or(o).lines().collect();
                         b0.sort();
                         b1.sort();
                         let fp = if mask_after(o0, "implicit?") == mask_after(o, "implicit?") {
                             "nondet:diag:implicit?N".to_string()
                         } else if b0 == b1 {
-                            // same error blocks, different order
+                            // same diagnostics lines, different order of the error blocks
                             "nondet:diag:macro-expansion-errors-permuted".to_string()
                         } else {
                             format!("nondet:diag:{}", diff_class(o0, o, "macro"))
@@ -1002,6 +1003,27 @@ fn replay(args: &Args, file: &std::path::Path) {
     println!("program:\n{}\n", p.src);
     println!("recorded {}:\n{}\n", case["history_a"], case["obs_a"].as_str().unwrap_or(""));
     println!("recorded {}:\n{}\n", case["history_b"], case["obs_b"].as_str().unwrap_or(""));
+    if case["stream"].as_str() == Some("macro") {
+        // programs with several failing macro expansions: re-run every history of the recorded
+        // seed/tier and show the recorded index
+        if let (Some(seed), Some(tier), Some(idx)) =
+            (case["seed"].as_u64(), case["tier"].as_str(), case["index"].as_u64())
+        {
+            let mut first: Option<String> = None;
+            for mode in macros::MODES {
+                if let Ok(obs) = run_child(mode, tier, seed, &Default::default()) {
+                    for (i, o) in obs {
+                        if i as u64 == idx {
+                            let same = first.as_ref().map(|f| *f == o);
+                            println!("history {} (same as first: {:?}):\n{}\n", mode, same, o);
+                            first.get_or_insert(o);
+                        }
+                    }
+                }
+            }
+        }
+        return;
+    }
     let vm = fresh_vm(p.prelude);
     let a = observe(&vm, &p);
     let vm2 = fresh_vm(p.prelude);
